@@ -3,8 +3,8 @@ import vlib, mirrorcheck
 
 META = {
     "level": "model_checking",
-    "text": "Headers in Mirror.tla carry validator-set ids for the height and the next height; TLC checks that the voting/next-round/committing views always use the set the committed chain prescribes (genesis, then the next-set of the header committed one height below) on chains where the application changes keys and powers at every height, with proposals and replayed headers claiming other sets; the behaviours are replayed on a real Mirror and the oracle compares the real views' full validator sets (keys, powers and both hashes) with the set prescribed by what was committed.",
-    "note": "Bounded as C01 with three validator sets. Forged validator LISTS under unchanged hashes are exercised by the valsets world only once listsVS/listsNVS headers are enabled (see DESIGN.md). State-machine side (CurValSet at h+2) is covered by C08's harness.",
+    "text": "Headers in Mirror.tla carry validator-set ids for the height and the next height; TLC checks that the voting/next-round/committing views always use the set the committed chain prescribes (genesis, then the next-set of the header committed one height below) on chains where the application changes keys and powers at every height, with proposals and replayed headers claiming other sets; the behaviours are replayed on a real Mirror and the oracle compares the real views' full validator sets (keys, powers and both hashes) with the set prescribed by what was committed. StateMachine.tla behaviours (incl. crashes and restarts) are replayed on the real state machine with a driver that changes the set at every height: the finalization store must hold exactly what the driver returned and proposed headers must carry the chain's sets.",
+    "note": "Bounded as C01 with three validator sets. Forged validator LISTS under unchanged hashes are exercised by the valsets world only once listsVS/listsNVS headers are enabled (see DESIGN.md). State-machine side: the replay harness's driver changes the vote powers at every height; predicates FinalizationStoresDriverSet and ProposesWithChainSets are evaluated on the real state machine (same keys, all powers scaled, so that StateMachine.tla's 3-of-4 thresholds stay valid).",
     "technique": "TLA+ spec (Mirror.tla) + TLC exhaustive bounded check + replay on the real Mirror with real-state validator-set comparison",
 }
 
@@ -17,4 +17,19 @@ def run(ctx):
         {"world": "replay", "sim": 3 if q else 20, "steps": 6 if q else 9, "avoid": True, "cap": 120 if q else 2000, "seeds": 1 if q else 2},
     ]
     design = [("Mirror_c07.cfg", {"MaxSteps": 5 if q else 6}, "C07_ViewVS on every reachable state")]
-    return mirrorcheck.run(ctx, {"C07"}, plans, design_cfgs=design)
+    cov, mismatches, inconcl = mirrorcheck.collect(ctx, {"C07"}, plans, design_cfgs=design)
+    # the state machine half: the driver of the replay harness changes the vote powers at every height (finalizing h returns
+    # a set that applies from h+2 on, checks/sm_worlds.py); on the real state machine the finalization store must record
+    # exactly the returned set and every header it proposes must carry the sets the chain prescribes for its height and the next
+    import smcheck
+    sm_plans = [{"cover": True, "universe": "Small", "steps": 5 if q else 6, "crash": True, "rich": False, "cap": 4000 if q else 40000},
+                {"universe": "", "rich": True, "sim": 8 if q else 60, "steps": 10 if q else 13, "crash": True, "cap": 200 if q else 4000, "seeds": 1 if q else 3, "maxh": 4}]
+    scov, smis, sinc = smcheck.collect(ctx, {"C07"}, sm_plans, [])
+    cov["state_machine_validator_sets"] = scov
+    cov["behaviours_replayed_on_real_code"] += scov["behaviours_replayed_on_real_code"]
+    cov["evaluations"] += scov["evaluations"]
+    # code -> spec direction: the repository's own tests run under the invariant monitor
+    import suitemon
+    cov.update(suitemon.run_suite(ctx, {"C07"}, kind="mirror"))
+    rc = ctx.finish("model_checking", extra_cov=cov)
+    return mirrorcheck.conclude(rc, mismatches + smis, inconcl + sinc)
